@@ -1,4 +1,4 @@
 SPECIFICATION TraceSpec
-INVARIANTS HarnessGenuineAccepted HarnessAltAgrees HarnessDupShape C29_BlockBinding C29_HashSensitive
+INVARIANTS HarnessGenuineAccepted HarnessAltAgrees HarnessDupShape C29_BlockBinding C29_HashSensitive C29_RepeatChangesHash
 POSTCONDITION Accepted
 CHECK_DEADLOCK FALSE
